@@ -5,7 +5,7 @@
    values of wider fields), bodies shorter than the minimum, ordered pairs for
    reuse, and totality inputs (prefixes, byte substitutions, pseudo-random
    strings).  Evaluated, not explored: one ASSUME prints every vector. *)
-EXTENDS LayerExpect, Json
+EXTENDS DcmiCaps, Json
 
 CONSTANTS Seed, Family, Tier
 
@@ -49,18 +49,67 @@ Extra ==
   \cup { [id |-> "GetSessionInfoRsp/short-active-" \o ToString(n), prop |-> "C07", kind |-> "decode", layer |-> "GetSessionInfoRsp", class |-> "short",
           bytes |-> Take(<<3, 5, 1, 2, 4, 17>>, n), exp |-> [err |-> TRUE]] : n \in 3..5 }
 
+SensorInfoBytes(total, ids) == <<total, Len(ids)>> \o Flatten([i \in 1..Len(ids) |-> LE16(ids[i])])
+\* ------------------------------------------------- DCMI capabilities (DcmiCaps.tla)
+CapsDecode(names) ==
+  UNION { { [id |-> n \o "/" \o pr[2], prop |-> "C07", kind |-> "decode", layer |-> CapsGoLayer(n),
+             class |-> "field-" \o pr[2], bytes |-> Encode(CapsTables[n], pr[1]),
+             exp |-> [err |-> FALSE, value |-> CapsExpected(n, pr[1])]] : pr \in CapsVecs(n, Seed) \cup (IF Tier = "thorough" THEN CapsVecs(n, Seed + 1) \cup CapsVecs(n, Seed + 2) ELSE {}) }
+          : n \in names }
+  \* shorter than the smallest body of the parameter (a 5-byte mandatory body cut to 4 bytes is the v1.0 form, not an error)
+  \cup UNION { { [id |-> n \o "/short-" \o ToString(k), prop |-> "C07", kind |-> "decode", layer |-> CapsGoLayer(n), class |-> "short",
+                   bytes |-> Take(Encode(CapsTables[n], CapsBase(n, Seed, 3)), k), exp |-> [err |-> TRUE]] : k \in 0..(CapsMinLen(n) - 1) }
+                : n \in names \ {"DCMICapsMandatoryPlatformAttrsRsp5"} }
+PeriodLists == { [i \in 1..n |-> (i * 37 + n * 11 + Seed) % 256] : n \in 0..9 } \cup { [i \in 1..252 |-> (i * 7) % 256], <<0>>, <<255, 0, 64, 128, 192>> }
+PowerStatsDecode ==
+  { [id |-> "DCMICapsEnhancedSystemPowerStatisticsAttrsRsp/n" \o ToString(Len(ps)), prop |-> "C07", kind |-> "decode",
+     layer |-> "DCMICapsEnhancedSystemPowerStatisticsAttrsRsp", class |-> "periods-" \o ToString(Len(ps)),
+     bytes |-> PowerStatsBytes(h, ps), exp |-> [err |-> FALSE, value |-> PowerStatsExpected(h, ps)]]
+    : ps \in PeriodLists, h \in {<<1, 5, 2>>, <<1, 1, 1>>} }
+  \cup UNION { { [id |-> "DCMICapsEnhancedSystemPowerStatisticsAttrsRsp/short-" \o ToString(c) \o "-" \o ToString(k), prop |-> "C07", kind |-> "decode",
+          layer |-> "DCMICapsEnhancedSystemPowerStatisticsAttrsRsp", class |-> "short",
+          bytes |-> <<1, 5, 2>> \o Take(<<c>> \o [i \in 1..c |-> i], k), exp |-> [err |-> TRUE]] : k \in 0..c } : c \in {1, 2, 5, 200, 255} }
+\* decoding is the same function of the bytes whatever the layer value held before (C07 over histories): the later
+\* encoding is decoded into a value that already decoded an earlier one, and must still equal the specification's record
+After(layer, cls, first, second, value) ==
+  [id |-> layer \o "/after-" \o cls, prop |-> "C07", kind |-> "reuse", layer |-> layer, class |-> "after-" \o cls,
+   first |-> first, second |-> second, exp |-> [err |-> FALSE, value |-> value]]
+History ==
+  UNION { LET T == Tables[name]  r == Base(T, Seed)  o == Base(T, Seed + 5) IN
+          IF ~Sane(name, r) THEN {} ELSE
+          { After(GoLayer(name), "other-values", Encode(T, o), Encode(T, r), Expected(name, T, r)),
+            After(GoLayer(name), "all-ones", Repeat(255, Len(Encode(T, r))), Encode(T, r), Expected(name, T, r)),
+            After(GoLayer(name), "longer", Encode(T, o) \o <<9, 9, 9>>, Encode(T, r), Expected(name, T, r)) }
+          : name \in RspNames }
+  \cup UNION { { After(CapsGoLayer(n), "v" \o ToString(v1) \o "-v" \o ToString(v2), Encode(CapsTables[n], CapsBase(n, Seed + 3, v1)),
+                       Encode(CapsTables[n], CapsBase(n, Seed, v2)), CapsExpected(n, CapsBase(n, Seed, v2)))
+                  : v1 \in 1..Len(Versions), v2 \in 1..Len(Versions) } : n \in DOMAIN CapsTables }
+  \* five-byte then four-byte mandatory attributes, and back
+  \cup { After("DCMICapsMandatoryPlatformAttrsRsp", "5-then-4", Encode(Mandatory5W, CapsBase("DCMICapsMandatoryPlatformAttrsRsp5", Seed + 2, 3)),
+                Encode(Mandatory4W, CapsBase("DCMICapsMandatoryPlatformAttrsRsp4", Seed, v)),
+                CapsExpected("DCMICapsMandatoryPlatformAttrsRsp4", CapsBase("DCMICapsMandatoryPlatformAttrsRsp4", Seed, v))) : v \in 1..3 }
+  \* variable-length tails: longer then shorter, shorter then longer, non-empty then empty
+  \cup { After("DCMICapsEnhancedSystemPowerStatisticsAttrsRsp", ToString(Len(a)) \o "-then-" \o ToString(Len(c)),
+                PowerStatsBytes(<<1, 5, 2>>, a), PowerStatsBytes(<<1, 5, 2>>, c), PowerStatsExpected(<<1, 5, 2>>, c))
+          : a \in PeriodLists, c \in {ps \in PeriodLists : Len(ps) <= 5} }
+  \cup { After("GetDCMISensorInfoRsp", ToString(a) \o "-then-" \o ToString(c), SensorInfoBytes(a, [i \in 1..a |-> 1000 + i]),
+                SensorInfoBytes(9, [i \in 1..c |-> 7 * i]), [Instances |-> 9, RecordIDs |-> [i \in 1..c |-> 7 * i]]) : a \in {0, 1, 3, 8}, c \in {0, 1, 2, 8} }
+  \cup { After("GetChannelCipherSuitesRsp", ToString(a) \o "-then-" \o ToString(c), <<14>> \o [i \in 1..a |-> 200 + i],
+                <<1>> \o [i \in 1..c |-> i], [Channel |-> 1, CipherSuiteRecordsChunk |-> [i \in 1..c |-> i]]) : a \in {0, 5, 16}, c \in {0, 3, 16} }
+
 \* --------------------------------------------------------------------- requests
 ReqTables == [GetChannelAuthenticationCapabilitiesReq |-> GetChannelAuthenticationCapabilitiesReq, GetChannelCipherSuitesReq |-> GetChannelCipherSuitesReq,
               SetSessionPrivilegeLevelReq |-> SetSessionPrivilegeLevelReq, CloseSessionReq |-> CloseSessionReq, ChassisControlReq |-> ChassisControlReq,
               GetSDRReq |-> GetSDRReq, GetSensorReadingReq |-> GetSensorReadingReq, GetDCMISensorInfoReq |-> GetDCMISensorInfoReq]
 ReqOk(name, r) == /\ (name = "SetSessionPrivilegeLevelReq" => r["PrivilegeLevel"] # 1)      \* 1h is not a settable level (22.18)
                   /\ (name = "CloseSessionReq" => r["ID"] # <<0, 0, 0, 0>>)                  \* ID 0 selects by handle (extra byte)
-                  /\ (name = "GetDCMISensorInfoReq" => r["Instance"] = 0)                    \* instance start only applies to "all instances"
+\* DCMI 6.5.2: the instance start offset only applies to "all instances" (instance 0); it is sent as 0 otherwise
+ReqEncode(name, T, r) == IF name = "GetDCMISensorInfoReq" /\ r["Instance"] # 0 THEN Encode(T, [r EXCEPT !["InstanceStart"] = 0]) ELSE Encode(T, r)
 ReqVectors(name) ==
   LET T == ReqTables[name]
       vs == {r \in Variants(T, Seed) \cup Variants(T, Seed + 1) \cup Variants(T, 0) : ReqOk(name, r)} IN
   { [id |-> name \o "/" \o Changed(T, Seed, r), prop |-> "C06", kind |-> "serialize", layer |-> name, class |-> "field-" \o Changed(T, Seed, r),
-     fields |-> r, payload |-> <<>>, exp |-> [err |-> FALSE, bytes |-> Encode(T, r)]] : r \in vs }
+     fields |-> r, payload |-> <<>>, exp |-> [err |-> FALSE, bytes |-> ReqEncode(name, T, r)]] : r \in vs }
 \* 22.20 Get Session Info request: index, then a handle (FEh) or a session ID (FFh)
 SessionInfoReqs ==
   { [id |-> "GetSessionInfoReq/index-" \o ToString(i), prop |-> "C06", kind |-> "serialize", layer |-> "GetSessionInfoReq", class |-> "by-index",
@@ -86,8 +135,22 @@ ReuseVectors(name) ==
   { [id |-> name \o "/" \o a[1] \o "->" \o c[1], prop |-> "C17", kind |-> "reuse", layer |-> GoLayer(name), class |-> a[1] \o "->" \o c[1],
      first |-> a[2], second |-> c[2], exp |-> [any |-> TRUE]] : a \in Members(name), c \in Members(name) }
 
+CapsReuse ==
+  UNION { LET T == CapsTables[n]
+              ms == { <<"v" \o ToString(v), Encode(T, CapsBase(n, Seed, v))>> : v \in 1..Len(Versions) }
+                    \cup { <<"w" \o ToString(v), Encode(T, CapsBase(n, Seed + 9, v))>> : v \in {1, 3} }
+                    \cup { <<"zeros", Repeat(0, CapsMinLen(n))>>, <<"ones", Repeat(255, CapsMinLen(n))>> }
+          IN { [id |-> n \o "/" \o a[1] \o "->" \o c[1], prop |-> "C17", kind |-> "reuse", layer |-> CapsGoLayer(n), class |-> a[1] \o "->" \o c[1],
+                first |-> a[2], second |-> c[2], exp |-> [any |-> TRUE]] : a \in ms, c \in ms }
+          : n \in DOMAIN CapsTables }
+  \cup { [id |-> "DCMICapsMandatoryPlatformAttrsRsp/mixed-" \o ToString(i) \o ToString(j), prop |-> "C17", kind |-> "reuse", layer |-> "DCMICapsMandatoryPlatformAttrsRsp",
+          class |-> "4-vs-5-byte", first |-> (IF i = 4 THEN Encode(Mandatory4W, CapsBase("DCMICapsMandatoryPlatformAttrsRsp4", Seed, 3)) ELSE Encode(Mandatory5W, CapsBase("DCMICapsMandatoryPlatformAttrsRsp5", Seed + 1, 3))),
+          second |-> (IF j = 4 THEN Encode(Mandatory4W, CapsBase("DCMICapsMandatoryPlatformAttrsRsp4", Seed + 2, 2)) ELSE Encode(Mandatory5W, CapsBase("DCMICapsMandatoryPlatformAttrsRsp5", Seed + 3, 2))),
+          exp |-> [any |-> TRUE]] : i \in {4, 5}, j \in {4, 5} }
+  \cup { [id |-> "DCMICapsEnhancedSystemPowerStatisticsAttrsRsp/" \o ToString(Len(a)) \o "->" \o ToString(Len(c)), prop |-> "C17", kind |-> "reuse",
+          layer |-> "DCMICapsEnhancedSystemPowerStatisticsAttrsRsp", class |-> "periods",
+          first |-> PowerStatsBytes(<<1, 5, 2>>, a), second |-> PowerStatsBytes(<<1, 1, 1>>, c), exp |-> [any |-> TRUE]] : a \in PeriodLists, c \in PeriodLists }
 \* variable-length layers without a fixed table: DCMI sensor info (count + record IDs), cipher suite chunks
-SensorInfoBytes(total, ids) == <<total, Len(ids)>> \o Flatten([i \in 1..Len(ids) |-> LE16(ids[i])])
 VarReuse ==
   LET si == { <<"n0", SensorInfoBytes(0, <<>>)>>, <<"n1", SensorInfoBytes(9, <<4660>>)>>, <<"n3", SensorInfoBytes(3, <<1, 2, 3>>)>>,
               <<"n8", SensorInfoBytes(12, <<11, 12, 13, 14, 15, 16, 17, 18>>)>>, <<"n2", SensorInfoBytes(2, <<65534, 258>>)>> }
@@ -129,9 +192,11 @@ Totality ==
                   \cup { TotalVec(GoLayer(name), "subst", i * 256 + v, [b EXCEPT ![i] = v]) : i \in 1..Len(b), v \in Subst }
                   : name \in RspNames }
 
-Vectors == CASE Family = "rsp" -> UNION { RspVectors(n) : n \in RspNames } \cup Extra \cup VarDecode
+Vectors == CASE Family = "rsp" -> UNION { RspVectors(n) : n \in RspNames } \cup Extra \cup VarDecode \cup History
+             [] Family = "caps1" -> CapsDecode({"DCMICapsSupportedCapabilitiesRsp", "DCMICapsOptionalPlatformAttrsRsp", "DCMICapsManageabilityAccessAttrsRsp"})
+             [] Family = "caps2" -> CapsDecode({"DCMICapsMandatoryPlatformAttrsRsp4", "DCMICapsMandatoryPlatformAttrsRsp5"}) \cup PowerStatsDecode
              [] Family = "req" -> UNION { ReqVectors(n) : n \in DOMAIN ReqTables } \cup SessionInfoReqs \cup CloseByHandle
-             [] Family = "reuse" -> UNION { ReuseVectors(n) : n \in RspNames } \cup VarReuse
+             [] Family = "reuse" -> UNION { ReuseVectors(n) : n \in RspNames } \cup VarReuse \cup CapsReuse
              [] Family = "totality" -> Totality
 ASSUME \A v \in Vectors : PrintT(<<"SCRIPT", ToJson(v)>>)
 ASSUME PrintT(<<"COUNT", ToJson([n |-> Cardinality(Vectors)])>>)
